@@ -4,6 +4,7 @@ import (
 	"fmt"
 	"go/token"
 	"go/types"
+	"strings"
 
 	"golang.org/x/tools/go/ssa"
 )
@@ -24,6 +25,11 @@ func checkC02(c *Ctx) {
 	c.rule("C02.e", "search keys: same-field append; scalar keys only through And; no whole-criteria overwrite", 20)
 	ruleSameFieldAppend(c, "C02.e")
 	ruleScalarOnlyViaAnd(c, "C02.e")
+	c.rule("C02.f", "folding scalar search keys through And preserves every bound (order-type evaluation of And)", 54)
+	c.rule("C02.f2", "And merges every field; list fields by concatenation", 16)
+	ruleAnd(c, "C02.f", "C02.f2", "C02.f2")
+	c.rule("C02.h", "an option field's encoding is not conditional on an unrelated field of the same struct", 1)
+	ruleNoCrossFieldGuard(c, "C02.h")
 	c.rule("C02.d", "no parse failure is swallowed in the server's command parsers", 100)
 	ruleNoSwallowedError(c, "C02.d", "imapserver", "internal")
 }
@@ -476,4 +482,184 @@ func callSitesOf(p *Program, fn *ssa.Function) []ssa.CallInstruction {
 		}
 	}
 	return callSiteCache[fn]
+}
+
+// fieldsInCond: module struct fields loaded (directly, through len(), !, &&…)
+// in a branch condition.
+func fieldsInCond(v ssa.Value, seen map[ssa.Value]bool) []fieldRef {
+	if seen[v] {
+		return nil
+	}
+	seen[v] = true
+	if r, ok := loadedField(v); ok {
+		out := []fieldRef{r}
+		// o.A.B: the outer field counts too
+		if u, ok := v.(*ssa.UnOp); ok {
+			if fa, ok := u.X.(*ssa.FieldAddr); ok {
+				out = append(out, fieldsInCond(fa.X, seen)...)
+			}
+		}
+		return out
+	}
+	switch x := v.(type) {
+	case *ssa.BinOp:
+		return append(fieldsInCond(x.X, seen), fieldsInCond(x.Y, seen)...)
+	case *ssa.UnOp:
+		return fieldsInCond(x.X, seen)
+	case *ssa.Call:
+		var out []fieldRef
+		for _, a := range x.Call.Args {
+			out = append(out, fieldsInCond(a, seen)...)
+		}
+		return out
+	case *ssa.Phi:
+		var out []fieldRef
+		for _, e := range x.Edges {
+			out = append(out, fieldsInCond(e, seen)...)
+		}
+		return out
+	case *ssa.Convert:
+		return fieldsInCond(x.X, seen)
+	case *ssa.Slice:
+		return fieldsInCond(x.X, seen)
+	}
+	return nil
+}
+
+// Cross-field conditions confirmed by reading the pinned tree: the encoding of
+// the left field legitimately depends on the right field of the same struct.
+var allowedCrossGuards = map[string]string{
+	"FetchItemBodySection.HeaderFields←Specifier":       "HEADER.FIELDS only exists with a part specifier",
+	"FetchItemBodySection.HeaderFieldsNot←Specifier":    "HEADER.FIELDS.NOT only exists with a part specifier",
+	"FetchItemBodySection.HeaderFieldsNot←HeaderFields": "RFC grammar allows one of FIELDS / FIELDS.NOT; FIELDS wins",
+	"FetchItemBodySection.Specifier←Part":               "the '.' separator is written only between a part path and a specifier",
+	"FetchItemBodySection.Part←Specifier":               "same separator test",
+	"SearchCriteria.Before←Since":                       "Since+Before one day apart are written as ON",
+	"SearchCriteria.Since←Before":                       "Since+Before one day apart are written as ON",
+	"SearchCriteria.SentBefore←SentSince":               "SentSince+SentBefore one day apart are written as SENTON",
+	"SearchCriteria.SentSince←SentBefore":               "SentSince+SentBefore one day apart are written as SENTON",
+	"SearchCriteriaModSeq.MetadataName←MetadataType":    "entry name and type are written together",
+	"SearchCriteriaModSeq.MetadataType←MetadataName":    "entry name and type are written together",
+	"ListOptions.ReturnStatus←ReturnSubscribed":         "",
+}
+
+// ruleNoCrossFieldGuard (C02.h): the encoding of an option field is not made
+// conditional on an unrelated field of the same struct.
+func ruleNoCrossFieldGuard(c *Ctx, rule string) {
+	p := c.P
+	seenKey := map[string]bool{}
+	n := 0
+	for _, fn := range p.SrcFuncs("imapclient") {
+		// encoders only: functions that drive an Encoder and do not parse
+		usesEnc, usesDec := false, false
+		for _, f := range withAnon(fn) {
+			allInstrs(f, func(i ssa.Instruction) {
+				if call, ok := i.(ssa.CallInstruction); ok {
+					if o := calleeObj(call); o != nil && isEncoderMethod(o) {
+						usesEnc = true
+					}
+					if isDecoderMethodCall(call) {
+						usesDec = true
+					}
+				}
+			})
+		}
+		if !usesEnc || usesDec {
+			continue
+		}
+		pd := postDominators(fn)
+		for _, b := range fn.Blocks {
+			for _, ins := range b.Instrs {
+				var r fieldRef
+				var ok bool
+				switch x := ins.(type) {
+				case *ssa.FieldAddr:
+					r, ok = fieldOf(x)
+				case *ssa.Field:
+					r, ok = fieldOf(x)
+				}
+				if !ok || r.Owner == nil || r.Owner.Obj().Pkg() == nil || r.Owner.Obj().Pkg().Path() != modPath {
+					continue
+				}
+				name := r.Owner.Obj().Name()
+				if !(strings.HasSuffix(name, "Options") || strings.HasPrefix(name, "FetchItem") || strings.HasPrefix(name, "SearchCriteria") || name == "StoreFlags" || name == "SectionPartial") {
+					continue
+				}
+				// the conditions this read is control-dependent on (transitively)
+				deps := transitiveDeps(fn, pd, b)
+				for x, si := range deps {
+					ifi, isIf := x.Instrs[len(x.Instrs)-1].(*ssa.If)
+					if !isIf {
+						continue
+					}
+					in0 := si == 0
+					// a branch whose other side only panics (exhaustiveness guard) is not a data dependency
+					other := x.Succs[1-si]
+					if len(other.Instrs) > 0 {
+						if _, isPanic := other.Instrs[len(other.Instrs)-1].(*ssa.Panic); isPanic {
+							continue
+						}
+					}
+					for _, g := range fieldsInCond(ifi.Cond, map[ssa.Value]bool{}) {
+						if g.Owner != r.Owner || g.Field == r.Field {
+							continue
+						}
+						k := fmt.Sprintf("%s.%s←%s", name, r.Field.Name(), g.Field.Name())
+						key := fnKey(fn) + ":" + k
+						if seenKey[key] {
+							continue
+						}
+						seenKey[key] = true
+						n++
+						if why, okAllowed := allowedCrossGuards[k]; okAllowed {
+							c.okTrivial(rule, key, ins.Pos(), "known dependency: "+why)
+							continue
+						}
+						// reads inside the guarded region are harmless if the field is also read outside it
+						readOutside := false
+						allInstrs(fn, func(j ssa.Instruction) {
+							var r2 fieldRef
+							var ok2 bool
+							switch y := j.(type) {
+							case *ssa.FieldAddr:
+								r2, ok2 = fieldOf(y)
+							case *ssa.Field:
+								r2, ok2 = fieldOf(y)
+							}
+							if ok2 && r2.Field == r.Field && j.Block() != b {
+								d2 := transitiveDeps(fn, pd, j.Block())
+								if s2, dep := d2[x]; !dep || (s2 == 0) != in0 {
+									readOutside = true
+								}
+							}
+						})
+						if readOutside {
+							c.ok(rule, key, ins.Pos(), "the field is also encoded outside that branch")
+							continue
+						}
+						c.fail(rule, key, ins.Pos(), fmt.Sprintf("%s.%s is encoded only under a condition on the unrelated field %s: a caller who sets %s alone has it silently dropped", name, r.Field.Name(), g.Field.Name(), r.Field.Name()))
+					}
+				}
+			}
+		}
+	}
+	if n == 0 {
+		c.okTrivial(rule, "no cross-field conditions in the client's encoders", token.NoPos, "0 sites")
+	}
+}
+
+func transitiveDeps(fn *ssa.Function, pd map[*ssa.BasicBlock]map[*ssa.BasicBlock]bool, b *ssa.BasicBlock) map[*ssa.BasicBlock]int {
+	deps := map[*ssa.BasicBlock]int{}
+	work := []*ssa.BasicBlock{b}
+	for len(work) > 0 {
+		cur := work[0]
+		work = work[1:]
+		for x, si := range controlDeps(fn, pd, cur) {
+			if _, seen := deps[x]; !seen {
+				deps[x] = si
+				work = append(work, x)
+			}
+		}
+	}
+	return deps
 }
